@@ -236,12 +236,15 @@ structure Cfg where
   /-- solb readers: the declared vertex count must be a non-negative `int` and `count × ldim × 8`
       bytes must be left in the file *before* anything is sized by it -/
   checkCount : Bool := false
+  /-- scalar solb reader: for a `SolAtVertices` section that declares no field (`ldim = 0`) the per-vertex loop
+      is skipped (54a1e7c) -/
+  checkFields : Bool := false
   /-- `malloc` of more than this many bytes returns NULL (the harness runs with this cap) -/
   allocCap : Nat := 2 ^ 30
   deriving DecidableEq, Repr
 
 def Cfg.faithful : Cfg := {}
-def Cfg.fixed : Cfg := { checkProgress := true, checkIndex := true, checkCount := true }
+def Cfg.fixed : Cfg := { checkProgress := true, checkIndex := true, checkCount := true, checkFields := true }
 
 abbrev P (α : Type) := Bytes → Except Status (α × Bytes)
 
